@@ -285,10 +285,10 @@ def rebuild(ctx):
                             return False
                         roots = set()
                         for x in a[2]:
-                            m = x.single_atom()
-                            if m is None or m[0] != "mcall" or m[2] != fn or _col_index(m[1]) != i:
+                            m = q.reduction_of(x, fn)
+                            if m is None or _col_index(m) != i:
                                 return False
-                            roots.add(_proj_root(m[1]))
+                            roots.add(_proj_root(m))
                         return roots == {"_reference_pca_projection", "_test_pca_projection"}
                     ctx.ob("AGREE-support", U, "support of component i spans the reference and the test scores of component i [%s]" % L, mm("min", lo[0]) and mm("max", up[0]), "", lo[0])
                     bh = [e for e in tr.calls() if e.d.get("fi") is not None and e.fi.name == "_build_histograms" and q.stack_has(e, U)]
@@ -425,12 +425,13 @@ def fit_block(ctx):
         want_fn = "_jensen_shannon_distance" if cell["divergence_metric"] == "kl" else "_intersection_divergence"
         dv = [e for e in tr.calls() if e.d.get("fi") is not None and e.fi.qualname == PC + "." + want_fn and q.stack_has(e, U)]
         if dt and dv:
+            _noidx = lambda t: q.at_pos(tr, t)  # keys / columns as functions of the component position, however the repetition is written
             k_store = _noidx(dt[0].path[0][1])
             a1 = q.unmut(dv[0].args[1]).single_atom()
             a0 = q.unmut(dv[0].args[0]).single_atom()
             k_read = _noidx(a1[2]) if a1 is not None and a1[0] == "sub" else None
             kk = k_store.single_atom()
-            okk = k_read is not None and k_store == k_read and kk is not None and kk[0] == "fstr" and kk[1][0] == const("PC") and T.same(kk[1][1], atom(("sym", "i")) + const(1))
+            okk = k_read is not None and k_store == k_read and kk is not None and kk[0] == "fstr" and kk[1][0] == const("PC") and T.same(kk[1][1], q.POS + const(1))
             ctx.ob("AGREE", U, "test densities are stored and read under the same key 'PC<i+1>' as the reference densities [%s]" % L, okk,
                    "stored under %s, read under %s" % (q.short(k_store, 40), q.short(k_read, 40) if k_read is not None else None), dt[0])
             src = dt[0].value
